@@ -157,6 +157,11 @@ func runC06(c *eng.Ctx, tier string) {
 		})
 	}
 
+	// R-C06-9: a denial is recorded whatever the state: the (audited) check
+	// precedes every look at the database (C01's rule), so no refusal can come
+	// from the state without a record
+	includeOnly(c, "R-C06-9", func(sc *eng.Ctx) { runC01(sc, "quick") }, "R-C01-1")
+	eng.SetRoot(nil)
 	// R-C06-2 / R-C06-3 / R-C06-5 on each logging helper
 	var lfs []*ssa.Function
 	for f := range logging {
